@@ -169,34 +169,56 @@ Definition check_n_clusters (n_clusters n : nat) : result unit :=
 Definition cut_input (D : dendrogram) (return_dendrogram : bool) : result dendrogram :=
   if return_dendrogram && negb (sortedq (heights D)) then reorder_dendrogram D else Ok D.
 
-(** [cut = np.sort(dendrogram[:, 2])[n - n_clusters]; if threshold is not None: cut = max(cut, threshold)].
-    The sorted array has n - 1 entries: index n - 1 (n_clusters = 1) is out of range. *)
-Definition cut_height (D : dendrogram) (n_clusters : option nat) (threshold : option Q) : result Q :=
+(** The cut height: [None] stands for [np.inf].
+    [if n_clusters == 1: cut = np.inf else: cut = np.sort(dendrogram[:, 2])[n - n_clusters]];
+    [if threshold is not None: cut = max(cut, threshold)]  (max(inf, threshold) = inf). *)
+Definition resolve_n_clusters (n : nat) (n_clusters : option nat) (threshold : option Q) : result nat :=
+  match n_clusters with
+  | None => match threshold with None => Ok 2 | Some _ => Ok n end
+  | Some k => match check_n_clusters k n with Ok _ => Ok k | Err e => Err e end
+  end.
+
+Definition cut_height (D : dendrogram) (n_clusters : option nat) (threshold : option Q) : result (option Q) :=
   let n := S (length D) in
-  let rnc :=
-    match n_clusters with
-    | None => match threshold with None => Ok 2 | Some _ => Ok n end
-    | Some k => match check_n_clusters k n with Ok _ => Ok k | Err e => Err e end
-    end in
-  match rnc with
+  match resolve_n_clusters n n_clusters threshold with
+  | Err e => Err e
+  | Ok nc =>
+      if Nat.eqb nc 1 then Ok None
+      else
+        match nth_error (sortq (heights D)) (n - nc) with
+        | None => Err IndexError
+        | Some c => Ok (Some (match threshold with None => c | Some th => qmax c th end))
+        end
+  end.
+
+(** Before the fix 130034d8 ("cut_straight accepts n_clusters=1"): no special case, and the sorted array of
+    n - 1 heights was indexed at n - 1 for n_clusters = 1 (defect D6). Kept to recognise the defect's return. *)
+Definition legacy_cut_height (D : dendrogram) (n_clusters : option nat) (threshold : option Q) : result (option Q) :=
+  let n := S (length D) in
+  match resolve_n_clusters n n_clusters threshold with
   | Err e => Err e
   | Ok nc =>
       match nth_error (sortq (heights D)) (n - nc) with
       | None => Err IndexError
-      | Some c => Ok (match threshold with None => c | Some th => qmax c th end)
+      | Some c => Ok (Some (match threshold with None => c | Some th => qmax c th end))
       end
   end.
 
-Definition straight_guard (cut : Q) (r : drow) (_ _ : list nat) : bool := qltb (r_height r) cut.
+(** [dendrogram[t][2] < cut] *)
+Definition below_cut (cut : option Q) (r : drow) : bool :=
+  match cut with None => true | Some c => qltb (r_height r) c end.
+
+Definition straight_guard (cut : option Q) (r : drow) (_ _ : list nat) : bool := below_cut cut r.
 
 (** The state of the [cluster] dict at the call of get_labels, with the dendrogram that was cut. *)
-Definition straight_state (D0 : dendrogram) (n_clusters : option nat) (threshold : option Q)
+Definition straight_state_with (ch : dendrogram -> option nat -> option Q -> result (option Q))
+           (D0 : dendrogram) (n_clusters : option nat) (threshold : option Q)
            (return_dendrogram : bool) : result (dendrogram * cstate) :=
   match cut_input D0 return_dendrogram with
   | Err e => Err e
   | Ok D =>
       let n := S (length D) in
-      match cut_height D n_clusters threshold with
+      match ch D n_clusters threshold with
       | Err e => Err e
       | Ok cut =>
           match replay (straight_guard cut) n D (init_clusters n) with
@@ -206,10 +228,20 @@ Definition straight_state (D0 : dendrogram) (n_clusters : option nat) (threshold
       end
   end.
 
+Definition straight_state := straight_state_with cut_height.
+
 Definition cut_straight (argsort : list Z -> list nat) (D0 : dendrogram) (n_clusters : option nat)
            (threshold : option Q) (sort_clusters return_dendrogram : bool)
   : result (list nat * option dendrogram) :=
   match straight_state D0 n_clusters threshold return_dendrogram with
+  | Err e => Err e
+  | Ok (D, st) => get_labels argsort D st sort_clusters return_dendrogram
+  end.
+
+Definition legacy_cut_straight (argsort : list Z -> list nat) (D0 : dendrogram) (n_clusters : option nat)
+           (threshold : option Q) (sort_clusters return_dendrogram : bool)
+  : result (list nat * option dendrogram) :=
+  match straight_state_with legacy_cut_height D0 n_clusters threshold return_dendrogram with
   | Err e => Err e
   | Ok (D, st) => get_labels argsort D st sort_clusters return_dendrogram
   end.
@@ -244,14 +276,6 @@ Definition balanced_clusters (D : dendrogram) (max_cluster_size : nat) : result 
 Definition sorted_ids (ids : list nat) : list nat :=
   filter (fun x => memn x ids) (seq 0 (S (list_max ids))).
 
-(** [dendrogram[leaf - n_nodes, 3]] with NumPy index semantics on an array of [len] rows:
-    a negative index z is read as [len + z]; out of [-len, len) raises IndexError. *)
-Definition np_row_size (D : dendrogram) (z : Z) : result nat :=
-  let len := Z.of_nat (length D) in
-  let z' := if (z <? 0)%Z then (len + z)%Z else z in
-  if (z' <? 0)%Z || (len <=? z')%Z then Err IndexError
-  else Ok (r_size (nth (Z.to_nat z') D drow0)).
-
 Fixpoint mapr {A B} (f : A -> result B) (l : list A) : result (list B) :=
   match l with
   | [] => Ok []
@@ -261,7 +285,25 @@ Fixpoint mapr {A B} (f : A -> result B) (l : list A) : result (list B) :=
               end
   end.
 
-Definition aggregate_dendrogram (D : dendrogram) (n_clusters : nat) (return_counts : bool)
+(** [counts = np.ones(n_clusters); internal = leaves >= n_nodes;
+     counts[internal] = dendrogram[leaves[internal] - n_nodes, 3]] — a row index past the end raises. *)
+Definition leaf_count (n : nat) (D : dendrogram) (l : nat) : result nat :=
+  if Nat.ltb l n then Ok 1
+  else match nth_error D (l - n) with Some r => Ok (r_size r) | None => Err IndexError end.
+
+(** Before the fix 130034d8: [dendrogram[leaves - n_nodes, 3]] for every kept id, with NumPy index semantics on
+    an array of [len] rows: a negative index z is read as [len + z]; out of [-len, len) raises IndexError
+    (defect D7: original leaves got the size of an unrelated row, or IndexError for leaf 0). *)
+Definition np_row_size (D : dendrogram) (z : Z) : result nat :=
+  let len := Z.of_nat (length D) in
+  let z' := if (z <? 0)%Z then (len + z)%Z else z in
+  if (z' <? 0)%Z || (len <=? z')%Z then Err IndexError
+  else Ok (r_size (nth (Z.to_nat z') D drow0)).
+Definition legacy_leaf_count (n : nat) (D : dendrogram) (l : nat) : result nat :=
+  np_row_size D (Z.of_nat l - Z.of_nat n)%Z.
+
+Definition aggregate_dendrogram_with (single_cluster_special : bool) (count : nat -> dendrogram -> nat -> result nat)
+           (D : dendrogram) (n_clusters : nat) (return_counts : bool)
   : result (dendrogram * option (list nat)) :=
   let n := S (length D) in
   match check_n_clusters n_clusters n with
@@ -272,13 +314,18 @@ Definition aggregate_dendrogram (D : dendrogram) (n_clusters : nat) (return_coun
       let new_index x := pos x node_indices in
       let out := map (fun r => (new_index (r_left r), new_index (r_right r), r_height r, r_size r)) newD in
       if return_counts then
-        let lv := firstn n_clusters node_indices in
-        match mapr (fun l => np_row_size D (Z.of_nat l - Z.of_nat n)%Z) lv with
-        | Err e => Err e
-        | Ok counts => Ok (out, Some counts)
-        end
+        if single_cluster_special && Nat.eqb n_clusters 1 then Ok (out, Some [n])
+        else
+          let lv := firstn n_clusters node_indices in
+          match mapr (count n D) lv with
+          | Err e => Err e
+          | Ok counts => Ok (out, Some counts)
+          end
       else Ok (out, None)
   end.
+
+Definition aggregate_dendrogram := aggregate_dendrogram_with true leaf_count.
+Definition legacy_aggregate_dendrogram := aggregate_dendrogram_with false legacy_leaf_count.
 
 (** The counts the docstring promises ("sizes of the merged subtrees"; their sum is n):
     1 for an original leaf, the size column of its row for an internal id. *)
@@ -293,6 +340,15 @@ Definition argsort_ok (argsort : list Z -> list nat) : Prop :=
   forall l, Permutation (argsort l) (seq 0 (length l)) /\
             forall a b, a <= b -> b < length l ->
                         (nth (nth a (argsort l) 0%nat) l 0 <= nth (nth b (argsort l) 0%nat) l 0)%Z.
+
+(** One admissible answer (stable insertion sort), used for examples and as the harness fall-back. *)
+Fixpoint ins_z (x : nat * Z) (l : list (nat * Z)) : list (nat * Z) :=
+  match l with
+  | [] => [x]
+  | y :: t => if (snd x <=? snd y)%Z then x :: l else y :: ins_z x t
+  end.
+Definition stable_argsort (l : list Z) : list nat :=
+  map fst (fold_right ins_z [] (combine (seq 0 (length l)) l)).
 
 (** Size of cluster l = number of leaves labelled l. *)
 Definition cluster_size (labels : list nat) (l : nat) : nat := count_occ Nat.eq_dec labels l.
@@ -312,8 +368,8 @@ Definition sizes_sorted (labels : list nat) (k : nat) : Prop :=
 (** Number of clusters of a labelling. *)
 Definition num_clusters (labels : list nat) : nat := length (nodup Nat.eq_dec labels).
 
-(** Number of merges strictly below a height. *)
-Definition below (cut : Q) (D : dendrogram) : nat := length (filter (fun r => qltb (r_height r) cut) D).
+(** Number of merges strictly below the cut height. *)
+Definition below (cut : option Q) (D : dendrogram) : nat := length (filter (below_cut cut) D).
 
 (** No two merges at the same height. *)
 Definition distinct_heights (D : dendrogram) : Prop :=
